@@ -877,7 +877,7 @@ pub fn run(args: &Args) -> i32 {
     let shards = args.scale(64, 256);
     let per_shard_per_type = match args.extra.get("cases").and_then(|s| s.parse::<u64>().ok()) {
         Some(n) => n,
-        None => args.scale(600_000, 1_800_000),
+        None => args.scale(150_000, 1_800_000),
     };
     let seed = args.seed;
     run_shards(&mut mon, args.threads, shards, |shard, m| {
